@@ -20,7 +20,12 @@ constants / moduli pairs gives the same stored tensor, parameters and energies) 
 eigenstrain and stiffness by the 24 proper cube operations and the three transpositions, for tri-axial ellipsoids and spheroids
 about x, y and z in isotropic / cubic / misaligned-cubic matrices on six quadrature schemes; textbook Eshelby tensor of spheroids
 about each axis and of tri-axial ellipsoids).  The model side of part H: `quadForm`, `betaSqSC`, `perm6`, `betaSqMirrored` of
-KawinV.Elastic are evaluated by the driver verb el.beta.axes at the traced `_n` and compared with the real `_beta`."""
+KawinV.Elastic are evaluated by the driver verb el.beta.axes at the traced `_n` and compared with the real `_beta`.
+Part I (array calls): `compute` on an (n x 3) array whose rows share the SHAPE at different SIZES (one triple scaled by 0.5, 2, 3, 10,
+as a run, interleaved with other shapes, with repeated rows, n = 2..8; every description, matrix stiffness as 6x6 and as 3x3x3x3)
+and eqAR_byGR / eqAR_bySearch on arrays of radii: row i = the single call on row i (1e-12), same shape at two sizes inside one call ->
+cube of the size factor, permuted rows -> permuted results; the model `KawinV.Elastic.computeRows` (driver verb el.rows) on the same
+settings and rows, with the reuse-previous-row variant `computeRowsReuse` evaluated next to it for the diagnosis."""
 import itertools, math, os, sys, traceback
 import numpy as np
 import vlib
@@ -28,7 +33,7 @@ from vlib import Result, enc_list, f2b, Toks, close
 
 PROP = 'C16'
 META = {
-    'level_text': 'Lean 4 theorems about definitions REGENERATED on every run from ElasticFactors.py by a concolic tracer (all 15 input-pair branches of moduliToC, Khachaturyan sphere/cube, constant description, Cramer 3x3 inverse, _beta, _n) and about a hand model (KawinV.Elastic) of the tensor-rank conversions, rotations, the repaired invert4rankTensor, the Eshelby energy skeleton (sphInt/Dijkl/Sijmn/Ellipsoid/Bohm over an arbitrary node list) and the StrainEnergy setter state machine with update() as coded after the repairs: rank conversions round-trip (every 6x6; every 4th-rank tensor with the minor symmetries), rotation keeps the minor symmetries, Cramer inverse is a two-sided inverse and the only one when det != 0, every moduliToC branch returns the compliance of the textbook (E, nu, G) for consistent input (sqrt branches under explicit sign hypotheses; the E-M branch is proved to return the OTHER root for negative nu), compliance x stiffness = 1, Khachaturyan on isotropic constants = 2G(1+nu)/(1-nu) eps^2 V, size scaling E(s r) = s^3 E(r) and eigenstrain scaling E(c eps) = c^2 E(eps) for Khachaturyan, constant, Ellipsoid and Bohm, homogeneous inclusion Bohm = Ellipsoid, the repaired invert4rankTensor is the inverse on minor-symmetric tensors (and the unweighted one is not: witness), the final parameters of any setter sequence are a function of the final (rotation, rotationPrec, stiffnesses, applied stress) only (false of the code before commit 187e553: witness), and in a family of live objects an interleaved call sequence leaves every object in the state its own calls alone produce (runFam_independent; negative witness fillDiagonal_leaks for an in-place write into the class-level array that StrainEnergyParameters shares between objects); history purity of one object: in the history model (setters, quadrature setters, compute calls interleaved; KawinV.Elastic.hrun, tied to the code by correspondence on every compute result) two histories that end with the same settings answer compute(r) identically, so a used object equals a fresh one given the final settings (history_fresh_equiv); for an object that keeps a memo table of a kernel (abstract: settings, kernel inputs, key, kernel; KawinV.Elastic.Memo) every result equals that of an object without a table provided every setter that changes a kernel input empties the table and equal keys mean equal kernel values (memo_sound, memo_fresh_equiv; instance for Dijkl inside StrainEnergy: eshelby_memo_sound, only the eigenstrain setters may skip the clearing: eig_setters_keep_kernel_input), and a table keyed by the radii alone that a stiffness setter does not empty returns the stale value (memo_stale_witness, memo_stale_witness_unsound); axis convention of the ellipsoid: the traced _beta squared is the quadratic form sum (r_i n_i)^2 with the SAME index pairing as the traced _n (beta_sq_eq_quadratic_form, beta_eq_sqrt_quadForm), the quadratic form and the model distance are invariant under every joint permutation of the axes of (semi-axes, direction) (quadForm_joint_permutation, betaN_joint_permutation, beta_joint_permutation for the traced pair at azimuth pi/2 - phi), the x<->y mirrored radius function differs by (a^2-b^2)(sin^2 phi - cos^2 phi) sin^2 theta, i.e. for every particle with r[0] != r[1] and never for r[0] = r[1] (betaSqMirrored_sub, betaSqMirrored_ne, betaSqMirrored_eq_of_equal_axes; exact rational witness beta_mirrored_differs), and the quadrature sum is covariant: a jointly invariant distance function, a covariant kernel and a node table mapped to itself give D(relabelled particle)_ijkl = D_{s(i)s(j)s(k)s(l)} (sphInt_joint_permutation, Dijkl_joint_permutation; hypotheses discharged for x<->y and a cubic / isotropic stiffness along the axes: Dijkl_swap_cubic).',
+    'level_text': 'Lean 4 theorems about definitions REGENERATED on every run from ElasticFactors.py by a concolic tracer (all 15 input-pair branches of moduliToC, Khachaturyan sphere/cube, constant description, Cramer 3x3 inverse, _beta, _n) and about a hand model (KawinV.Elastic) of the tensor-rank conversions, rotations, the repaired invert4rankTensor, the Eshelby energy skeleton (sphInt/Dijkl/Sijmn/Ellipsoid/Bohm over an arbitrary node list) and the StrainEnergy setter state machine with update() as coded after the repairs: rank conversions round-trip (every 6x6; every 4th-rank tensor with the minor symmetries), rotation keeps the minor symmetries, Cramer inverse is a two-sided inverse and the only one when det != 0, every moduliToC branch returns the compliance of the textbook (E, nu, G) for consistent input (sqrt branches under explicit sign hypotheses; the E-M branch is proved to return the OTHER root for negative nu), compliance x stiffness = 1, Khachaturyan on isotropic constants = 2G(1+nu)/(1-nu) eps^2 V, size scaling E(s r) = s^3 E(r) and eigenstrain scaling E(c eps) = c^2 E(eps) for Khachaturyan, constant, Ellipsoid and Bohm, homogeneous inclusion Bohm = Ellipsoid, the repaired invert4rankTensor is the inverse on minor-symmetric tensors (and the unweighted one is not: witness), the final parameters of any setter sequence are a function of the final (rotation, rotationPrec, stiffnesses, applied stress) only (false of the code before commit 187e553: witness), and in a family of live objects an interleaved call sequence leaves every object in the state its own calls alone produce (runFam_independent; negative witness fillDiagonal_leaks for an in-place write into the class-level array that StrainEnergyParameters shares between objects); history purity of one object: in the history model (setters, quadrature setters, compute calls interleaved; KawinV.Elastic.hrun, tied to the code by correspondence on every compute result) two histories that end with the same settings answer compute(r) identically, so a used object equals a fresh one given the final settings (history_fresh_equiv); for an object that keeps a memo table of a kernel (abstract: settings, kernel inputs, key, kernel; KawinV.Elastic.Memo) every result equals that of an object without a table provided every setter that changes a kernel input empties the table and equal keys mean equal kernel values (memo_sound, memo_fresh_equiv; instance for Dijkl inside StrainEnergy: eshelby_memo_sound, only the eigenstrain setters may skip the clearing: eig_setters_keep_kernel_input), and a table keyed by the radii alone that a stiffness setter does not empty returns the stale value (memo_stale_witness, memo_stale_witness_unsound); axis convention of the ellipsoid: the traced _beta squared is the quadratic form sum (r_i n_i)^2 with the SAME index pairing as the traced _n (beta_sq_eq_quadratic_form, beta_eq_sqrt_quadForm), the quadratic form and the model distance are invariant under every joint permutation of the axes of (semi-axes, direction) (quadForm_joint_permutation, betaN_joint_permutation, beta_joint_permutation for the traced pair at azimuth pi/2 - phi), the x<->y mirrored radius function differs by (a^2-b^2)(sin^2 phi - cos^2 phi) sin^2 theta, i.e. for every particle with r[0] != r[1] and never for r[0] = r[1] (betaSqMirrored_sub, betaSqMirrored_ne, betaSqMirrored_eq_of_equal_axes; exact rational witness beta_mirrored_differs), and the quadrature sum is covariant: a jointly invariant distance function, a covariant kernel and a node table mapped to itself give D(relabelled particle)_ijkl = D_{s(i)s(j)s(k)s(l)} (sphInt_joint_permutation, Dijkl_joint_permutation; hypotheses discharged for x<->y and a cubic / isotropic stiffness along the axes: Dijkl_swap_cubic); array calls: compute on an (n x 3) array is the list of the single-row energies (KawinV.Elastic.computeRows, tied to the code by the driver verb el.rows): row i = the single call on row i whatever precedes or follows it (computeRows_getElem, computeRows_context), rows taken in any order / repeated / sub-selected give the results taken the same way (computeRows_takeRows, computeRows_perm, computeRows_repeated), and a row that is another row scaled by s > 0 gets s^3 times its energy inside one call for every description and every settings history (computeOf_size_scaling, compute_rows_cube_scaling, real_compute_rows_cube_scaling); a loop that hands the previous row\'s energy to a row with the same axis ratios (computeRowsReuse) is wrong for every cube-scaling energy != 0 at s^3 != 1 (computeRowsReuse_differs; exact witness rows (1,1,2), (2,2,4): [2, 2] instead of [2, 16], computeRowsReuse_witness) and indistinguishable from the code on arrays without equal-shape neighbours and on rows of equal energy such as the unit-volume radii the KWN model passes (computeRowsReuse_eq_of_distinct, computeRowsReuse_eq_of_equal_energy).',
     'level_note': 'MONITORED only (oracle on the real code, not proved): energy >= 0 for positive-definite stiffness; rotation invariance; textbook Eshelby tensor components of the isotropic sphere; Lebedev exactness on monomials up to the stated order on every table; agreement of the 6x6 and 4th-rank energy variants and of the two 3x3 inversion routines; Bohm against an independent 9x9 reference. The Lebedev tables produced by loadPoints are NOT exact (finding lebedev-inexact-order*): analytic clauses that depend on the quadrature are evaluated twice, with the code\'s own nodes (failures carry the finding key) and with an independent Gauss-Legendre x trapezoid rule injected into the real description (must pass). Trusted: Lean kernel + Mathlib, axioms propext/Classical.choice/Quot.sound; tools/py2lean/sym.py (validated numerically on every run); the hand model equals the NumPy code as far as this run compared them; np.linalg.inv is modelled as "an inverse" (abstract in the theorems, Gauss-Jordan in the driver); exact-field arithmetic instead of IEEE doubles; sqrt/sin/cos are atoms with the laws used stated as hypotheses and discharged for the real numbers.',
     'technique': 'Lean 4 proof over generated definitions (py2lean) + hand model/state machine + differential correspondence + analytic oracle',
     'design_ref': 'DESIGN.md section 6, C16',
@@ -44,6 +49,7 @@ MONITORED = [
     'history purity on the real code: random call sequences on ONE StrainEnergy object (all setters in all input forms incl. property assignment and setShape by name / instance, setLebedevIntegration / setIntegrationIntervals / setOhmInverseFunction on the description, setAspectRatioResolution / setInterfacialEnergyMethod / clearCache, mixed with compute on one or several radii triples, the five energy variants, eqAR_bySearch / eqAR_byGR at repeated and varying aspect ratios): every observation equals that of a freshly constructed object given only the settings in force; the description kind follows the calls (finding history:eqAR_bySearch:stale-aspect-ratio-table: the aspect-ratio table of eqAR_bySearch is never invalidated)',
     'input-form equivalence on the real code: the same matrix / precipitate stiffness as 6x6, 3x3x3x3, nested lists, property assignment, elastic constants, three random moduli pairs (precipitate different from the matrix, with and without rotations, either side first) and the same eigenstrain / applied stress as scalar, 3-vector, matrix: stored tensor = the supplied tensor (expanded independently), same parameters, same energies',
     'orientation of the particle axes on the real code: _beta(a,b,c,phi,theta) = sqrt((a n_x)^2+(b n_y)^2+(c n_z)^2) with n = the code\'s own _n, and unchanged under joint relabelling of (semi-axes, direction); compute / strainEnergyEllipsoid of tri-axial ellipsoids (random choice of the longest axis) and of spheroids about x, y, z, diagonal (e11 != e22 != e33) and full symmetric eigenstrain, isotropic / cubic / misaligned cubic matrix with equal or different precipitate stiffness, are unchanged when the coordinate axes are relabelled (24 proper cube operations + the three transpositions acting on semi-axes, eigenstrain and, for the misaligned crystal, the stiffness) on the three Lebedev tables, the octant and the whole-sphere mid-point grid of setIntegrationIntervals and an injected Gauss-Legendre rule: 1e-9 where the relabelling maps the node table onto itself (measured on the table: the shipped Lebedev tables are only invariant under the rotations about z), else the quadrature accuracy of the scheme (Lebedev 0.3 / 0.2 / 0.15 and reported under the finding lebedev-inexact-order* while the tables are inexact; octant grid 24x24 3e-2; whole-sphere grid 96x48 5e-2; product rule 2e-5: the unchanged code stays below a third of the last three over 60 seeds); Eshelby tensor of prolate / oblate spheroids about each of x, y, z (Mura closed forms) and of tri-axial ellipsoids (elliptic integrals by adaptive quadrature) in an isotropic matrix, all 81 components, absolute tolerance per scheme 0.12 / 0.08 / 0.05 (Lebedev tables, measured worst 0.06 / 0.03 / 0.02), 1.5e-2 octant grid, 2e-2 whole-sphere grid, 1e-6 product rule (5e-5 tri-axial)',
+    'array calls on the real code: compute on an (n x 3) array, n = 2..8, whose rows are one to three shapes (sphere, spheroid about any axis, tri-axial) at the sizes 1, 0.5, 2, 3, 10 (x7) - a run of one shape, interleaved shapes, repeated rows - for constant / sphere / cube / ellipsoid (by name ellipsoid, plate, needle) descriptions, matrix and precipitate stiffness as 6x6 or 3x3x3x3, eigenstrain scalar / vector / matrix, grid and Lebedev quadrature: row i equals compute(row i), description.computeStrainEnergy(row i) and compute(list(row i)) to 1e-12; rows of the same shape have energies in the ratio of the cubes of their sizes (1e-9); compute(rows[perm]) = compute(rows)[perm] for a random permutation and the reversal; the five energy variants of the ellipsoidal description scale with the cube across the rows; eqAR_byGR / eqAR_bySearch on an array of radii (with a repeated radius) = the calls on the single radii, permuted radii -> permuted answers (the aspect-ratio table first grown until stable)',
     'object independence on the real code: several live StrainEnergy objects configured in interleaved order, each read after all were configured, equal a fresh single object given the same calls and hold the eigenstrain supplied to them; eps^2 / s^3 scaling and the closed form evaluated across objects',
 ]
 ASSUMPTIONS = [
@@ -2239,6 +2245,328 @@ def part_orientation(ctx, res, EF, r, lebedev_bad):
     return lines, checks
 
 
+# ------------------------------------------------------------------ part I: array calls (one call for many particles)
+ROW_FACTORS = [0.5, 2.0, 3.0, 10.0]
+ROW_TOL = 1e-12            # an array call and a single call run the same floating-point operations on a row
+ROW_VARIANTS = ['strainEnergyEllipsoid', 'strainEnergyEllipsoid2ndRank', 'strainEnergyBohm', 'strainEnergyBohm2ndRank', 'strainEnergyEllipsoidWithStress']
+
+
+def gen_rows(r):
+    """the (n x 3) semi-axes of one array call, n = 2..8: one to three SHAPES (sphere, spheroid about any axis, tri-axial), each
+    at several SIZES (uniform scalings of one triple by 1, 0.5, 2, 3, 10), as a run of one shape (a size distribution), interleaved
+    with the other shapes, with repeated rows.  Returns rows, shape number per row, size factor per row, layout name."""
+    n = int(r.integers(2, 9))
+    a0 = 10 ** r.uniform(-9.5, -8)
+    base = []
+    for _ in range(int(r.integers(1, 4))):
+        u = r.random()
+        if u < 0.15:
+            b = np.ones(3)
+        elif u < 0.7:
+            ar = float(r.uniform(1.2, 5)); ar = ar if r.random() < 0.6 else 1 / ar
+            b = np.ones(3); b[int(r.choice([2, 2, 2, 0, 1]))] = ar
+        else:
+            b = r.uniform(0.4, 2.5, 3)
+        if not any(np.array_equal(b * a0, x) for x in base):          # (two spheres are ONE shape)
+            base.append(b * a0)
+    fac = [1.0] + ROW_FACTORS
+    layout = str(r.choice(['run', 'run', 'interleaved', 'repeated', 'mixed']))
+    ids, fs = [], []
+    if layout == 'run':                         # the same shape at n sizes, other shapes before / after
+        k = int(r.integers(2, n + 1)); start = int(r.integers(0, n - k + 1))
+        order = [float(x) for x in r.permutation(fac)] + [float(x) * 7.0 for x in r.permutation(fac)]
+        for i in range(n):
+            if start <= i < start + k:
+                ids.append(0); fs.append(order[i - start])
+            else:
+                ids.append(int(r.integers(0, len(base)))); fs.append(float(r.choice(fac)))
+    elif layout == 'interleaved':               # A, B, A at another size, B at another size, ...
+        if len(base) == 1:
+            base.append(base[0] * np.array([1.0, 1.0, 1.7]))
+        for i in range(n):
+            ids.append(i % len(base)); fs.append(float(r.choice(fac)))
+    elif layout == 'repeated':                  # exact repetitions, consecutive and not
+        for i in range(n):
+            if i and r.random() < 0.6:
+                j = int(r.integers(0, i)) if r.random() < 0.5 else i - 1
+                ids.append(ids[j]); fs.append(fs[j])
+            else:
+                ids.append(int(r.integers(0, len(base)))); fs.append(float(r.choice(fac)))
+    else:
+        for i in range(n):
+            ids.append(int(r.integers(0, len(base)))); fs.append(float(r.choice(fac)))
+    if not any(ids[i] == ids[j] and fs[i] != fs[j] for i in range(n) for j in range(i)):
+        # every array has at least one shape at two sizes, in neighbouring rows
+        ids[-1] = ids[-2]; fs[-1] = fs[-2] * float(r.choice(ROW_FACTORS))
+    rows = np.array([base[i] * f for i, f in zip(ids, fs)])
+    return rows, ids, fs, layout
+
+
+def row_classes(ids, fs):
+    out = []
+    for i in range(len(ids)):
+        if any(ids[j] == ids[i] and fs[j] == fs[i] for j in range(i)):
+            out.append('repeated-row')
+        elif any(ids[j] == ids[i] for j in range(i)):
+            out.append('same-shape-different-size')
+        else:
+            out.append('first-row-of-its-shape')
+    return out
+
+
+def rows_object(EF, cfg):
+    """the object of an array case: constructor, setters, quadrature of the ellipsoidal description"""
+    se = EF.StrainEnergy(cfg['shape'])
+    for op in cfg['ops']:
+        apply_flag(se, op)
+    q = cfg.get('quad')
+    if q is not None and isinstance(se.description, EF.EllipsoidalEnergyDescription):
+        se.description.setLebedevIntegration(q[2]) if q[1] == 'lebedev' else se.description.setIntegrationIntervals(q[2], q[3], q[4])
+    if cfg.get('arRes') is not None:
+        se.setAspectRatioResolution(*cfg['arRes'])
+    return se
+
+
+def rows_cfg_json(cfg):
+    return dict(shape=cfg['shape'], ops=[hop_json(('set', op)) for op in cfg['ops']], quad=None if cfg.get('quad') is None else list(cfg['quad']),
+                arRes=cfg.get('arRes'))
+
+
+def rows_cfg_from_json(j):
+    return dict(shape=j['shape'], ops=[hop_from_json(x)[1] for x in j['ops']], quad=None if j.get('quad') is None else tuple(j['quad']),
+                arRes=j.get('arRes'))
+
+
+def rows_failures(EF, se, rows, ids, fs, perms, stats=None):
+    """the array-call predicates on the implementation's own outputs; returns (failures, array result, permuted results)"""
+    rows = np.asarray(rows, dtype=float); n = len(rows)
+    desc = SHAPES[DESC_CODE[type(se.description).__name__]]
+    fails = []
+    with np.errstate(all='ignore'):
+        E = np.asarray(se.compute(rows.copy()), dtype=float)
+        if E.shape != (n,):
+            fails.append(dict(key='array-call-shape:' + desc, what='compute on an (%d x 3) array returns an array of shape %r' % (n, E.shape), observed=list(E.shape), required=[n]))
+            return fails, E, []
+        single = np.array([float(se.compute(rows[i].copy())) for i in range(n)])
+        direct = np.array([float(se.description.computeStrainEnergy(rows[i].copy())) for i in range(n)])
+        aslist = np.array([float(se.compute([float(x) for x in rows[i]])) for i in range(n)])
+    cls = row_classes(ids, fs)
+    seen = set()
+    for i in range(n):
+        for nm, ref in (('compute(row)', single), ('description.computeStrainEnergy(row)', direct), ('compute(list(row))', aslist)):
+            if stats is not None:
+                stats['row-' + cls[i]] = stats.get('row-' + cls[i], 0) + 1
+            if close(E[i], ref[i], ROW_TOL):
+                continue
+            key = 'array-row-differs-from-single-call:%s:%s' % (desc, cls[i])
+            if key in seen:
+                continue
+            seen.add(key)
+            prev = ' (it is the value returned for row %d)' % (i - 1) if i and E[i] == E[i - 1] and not close(ref[i], ref[i - 1], ROW_TOL) else ''
+            same = [j for j in range(i) if ids[j] == ids[i]]
+            rel = ''
+            if same:
+                j = same[-1]
+                rel = '; row %d is row %d scaled by %g: E[%d]/E[%d] = %.6g in the array call, %.6g expected' % (i, j, fs[i] / fs[j], i, j, E[i] / E[j] if E[j] else float('nan'), (fs[i] / fs[j]) ** 3)
+            fails.append(dict(key=key, what='row %d of compute(%d x 3 array) differs from %s on that row%s%s' % (i, n, nm, prev, rel), observed=float(E[i]), required=float(ref[i]), row=i))
+    # the same shape at two sizes inside ONE call: energies in the ratio of the volumes
+    done = False
+    for i in range(n):
+        for j in range(i):
+            if ids[j] == ids[i] and not done:
+                s3 = (fs[i] / fs[j]) ** 3
+                if stats is not None:
+                    stats['cube-pairs'] = stats.get('cube-pairs', 0) + 1
+                if not close(E[i], s3 * E[j], 1e-9):
+                    done = True
+                    fails.append(dict(key='cube-scaling-within-array:' + desc, what='rows %d and %d of one compute call are the same shape, row %d = %g x row %d: E[%d]/E[%d] = %.9g, the cube of the size factor is %.9g'
+                                      % (j, i, i, fs[i] / fs[j], j, i, j, E[i] / E[j] if E[j] else float('nan'), s3), observed=float(E[i]), required=float(s3 * E[j]), row=i))
+    # the order of the rows does not matter
+    EP = []
+    for perm in perms:
+        with np.errstate(all='ignore'):
+            Ep = np.asarray(se.compute(rows[perm].copy()), dtype=float)
+        EP.append(Ep)
+        bad = [k for k in range(n) if Ep.shape != (n,) or not close(Ep[k], E[perm[k]], ROW_TOL)]
+        if bad and not any(f['key'].endswith(':permuted') for f in fails):
+            k = bad[0]
+            fails.append(dict(key='array-row-differs-from-single-call:%s:permuted' % desc, what='compute(rows[perm]) != compute(rows)[perm]: the result for a particle depends on the rows around it; '
+                              'position %d of the permuted call holds row %d (%s)' % (k, perm[k], cls[perm[k]]), observed=np.asarray(Ep).tolist(), required=E[perm].tolist(), perm=[int(x) for x in perm]))
+    # the energy variants of the ellipsoidal description take one particle per call: the same shape at two sizes across calls
+    if desc == 'ellipsoid':
+        d = se.description
+        with np.errstate(all='ignore'):
+            V = {nm: [float(getattr(d, nm)(rows[i].copy())) for i in range(n)] for nm in ROW_VARIANTS}
+        for nm in ROW_VARIANTS:
+            hit = [(i, j) for i in range(n) for j in range(i) if ids[i] == ids[j] and not close(V[nm][i], (fs[i] / fs[j]) ** 3 * V[nm][j], 1e-9)]
+            if hit:
+                i, j = hit[0]
+                fails.append(dict(key='cube-scaling-across-rows:' + nm, what='description.%s on row %d = %g x row %d: ratio of the energies %.9g, cube of the size factor %.9g'
+                                  % (nm, i, fs[i] / fs[j], j, V[nm][i] / V[nm][j] if V[nm][j] else float('nan'), (fs[i] / fs[j]) ** 3), observed=V[nm][i], required=(fs[i] / fs[j]) ** 3 * V[nm][j], row=i))
+        if not close(V['strainEnergyBohm'][0], single[0], 1e-9) and not any(f['key'].startswith('array-row') for f in fails):
+            fails.append(dict(key='compute-is-not-strainEnergyBohm', what='compute(row 0) != description.strainEnergyBohm(row 0)', observed=float(single[0]), required=V['strainEnergyBohm'][0], row=0))
+    return fails, E, EP
+
+
+def eqar_failures(EF, se, which, R, gamma, sfkind, perm):
+    """eqAR_byGR / eqAR_bySearch on an array of radii: entry i = the call on R[i]; permuted radii -> permuted answers"""
+    sf = _shape_factor(sfkind)
+    f = se.eqAR_bySearch if which == 'search' else se.eqAR_byGR
+    name = 'eqAR_by' + ('Search' if which == 'search' else 'GR')
+    R = np.asarray(R, dtype=float); n = len(R)
+    fails = []
+    with np.errstate(all='ignore'):
+        if which == 'search':
+            # the aspect-ratio table grows while a search ends in its upper quarter: ask until it no longer grows, then every call below reads ONE table
+            size = -1
+            for _ in range(4):
+                f(R.copy(), gamma, sf)
+                if len(se._aspectRatios) == size:
+                    break
+                size = len(se._aspectRatios)
+            else:
+                return None
+        A = np.asarray(f(R.copy(), gamma, sf), dtype=float)
+        if A.shape != (n,):
+            return [dict(key='array-call-shape:' + name, what='%s on %d radii returns shape %r' % (name, n, A.shape), observed=list(A.shape), required=[n])]
+        single = np.array([float(f(R[i], gamma, sf)) for i in range(n)])
+        Ap = np.asarray(f(R[perm].copy(), gamma, sf), dtype=float)
+        if which == 'search' and len(se._aspectRatios) != size:
+            return None
+    for i in range(n):
+        if not close(A[i], single[i], ROW_TOL):
+            c = 'repeated-row' if any(R[j] == R[i] for j in range(i)) else 'same-shape-different-size'
+            fails.append(dict(key='array-row-differs-from-single-call:%s:%s' % (name, c), what='entry %d of %s(array of %d radii) differs from the call on that radius alone' % (i, name, n),
+                              observed=float(A[i]), required=float(single[i]), row=i))
+            break
+    bad = [k for k in range(n) if not close(Ap[k], A[perm[k]], ROW_TOL)]
+    if bad:
+        fails.append(dict(key='array-row-differs-from-single-call:%s:permuted' % name, what='%s(R[perm]) != %s(R)[perm]' % (name, name), observed=Ap.tolist(), required=A[perm].tolist(), perm=[int(x) for x in perm]))
+    return fails
+
+
+def part_rows(ctx, res, EF, r, n=None):
+    """array calls: `compute` on an (n x 3) array, eqAR_byGR / eqAR_bySearch on an array of radii.  Oracle on the implementation:
+    row i = the single call on row i; same shape at two sizes inside one call -> cube of the size factor; permuted rows -> permuted results.
+    Model: KawinV.Elastic.computeRows (driver verb el.rows) on the same settings and rows."""
+    lines, checks = [], []
+    ncorr = ctx.n(40, 300)
+    budget = [ctx.n(2600, 60000)]            # quadrature nodes x rows the model may evaluate (driver time ~1 ms each)
+    names = ['ellipsoid', 'sphere', 'ellipsoid', 'cube', 'plate', 'constant', 'needle', 'ellipsoid']
+
+    def _case_rows(k):
+        name = names[k % len(names)]
+        ops = []
+        if name == 'constant':
+            if r.random() < 0.7:
+                ops.append((1, float(r.uniform(1e6, 1e8))))          # (a constant description without a value: energy 0 for every row)
+        else:
+            rank = 2 + (k // len(names)) % 2          # matrix stiffness as 6x6 / as 3x3x3x3, alternating
+            mk = str(r.choice(['cubic', 'iso']))
+            c6 = EF.elasticConstantToC(*(rand_cubic(r) if mk == 'cubic' else rand_iso(r)[:3]))
+            ops.append((rank, c6 if rank == 2 else own_2to4(c6)))
+            if r.random() < 0.5:
+                p6 = EF.elasticConstantToC(*(rand_cubic(r) if mk == 'cubic' else rand_iso(r)[:3]))
+                prank = 6 + int(r.integers(0, 2))
+                ops.append((prank, p6 if prank == 6 else own_2to4(p6)))
+            ek = int(r.choice([12, 13, 14]))
+            ops.append((ek, float(r.choice([-1, 1]) * r.uniform(0.003, 0.03)) if ek == 12 else r.uniform(0.003, 0.03, 3) * r.choice([-1, 1], 3) if ek == 13 else rand_eig(r, 'full')))
+            if r.random() < 0.3:
+                ops = [ops[i] for i in r.permutation(len(ops))]
+        quad = None
+        if name in ('ellipsoid', 'plate', 'needle'):
+            u = r.random()
+            quad = ('quad', 'intervals', int(r.integers(4, 9)), int(r.integers(4, 9)), bool(r.random() < 0.7)) if u < 0.55 else ('quad', 'lebedev', 'low') if u < 0.9 else None
+        cfg = dict(shape=name, ops=ops, quad=quad, arRes=None)
+        rows, ids, fs, layout = gen_rows(r)
+        nrow = len(rows)
+        perms = [r.permutation(nrow), np.arange(nrow)[::-1]]
+        if np.array_equal(perms[0], np.arange(nrow)):
+            perms[0] = np.roll(np.arange(nrow), 1)
+        case = dict(object='StrainEnergy(%r)' % name, calls=[OPN[o[0]] for o in ops], quadrature=None if quad is None else hop_kind(quad), layout=layout,
+                    rows=rows.tolist(), shape_of_row=ids, size_factor_of_row=fs,
+                    rows_replay=dict(cfg=rows_cfg_json(cfg), rows=rows.tolist(), ids=ids, fs=fs, perms=[[int(x) for x in p] for p in perms]))
+        _case_rows.info = dict(object=case['object'], calls=case['calls'], rows=case['rows'])
+        se = rows_object(EF, cfg)
+        dreal = DESC_CODE[type(se.description).__name__]
+        stats = {}
+        fails, E, EP = rows_failures(EF, se, rows, ids, fs, perms, stats)
+        res.case(('rows', k, name, layout, nrow), True); res.evaluations += 1
+        res.count('rows-description:' + SHAPES[dreal]); res.count('rows-layout:' + layout); res.count('rows-n=%d' % nrow)
+        for kk, v in stats.items():
+            res.count('rows-' + kk, v)
+        if dreal != 0:
+            res.count('rows-matrix-tensor-rank-%d' % (2 if ops and any(o[0] == 2 for o in ops) else 4))
+        if k < 2:
+            res.sample({kk: case[kk] for kk in ('object', 'calls', 'quadrature', 'layout', 'rows', 'shape_of_row', 'size_factor_of_row')})
+        for f in fails:
+            res.violate(f['key'], f['what'], dict(case, row=f.get('row'), perm=f.get('perm')), f['observed'], f['required'])
+        # ---- arrays of radii through the equilibrium aspect ratio functions (ellipsoidal descriptions, every eighth case)
+        if dreal == 3 and k % 8 == 0:
+            nR = int(r.integers(2, 6)); R0 = 10 ** r.uniform(-9.3, -7.8)
+            fr = [1.0] + [float(r.choice([1.0] + ROW_FACTORS)) for _ in range(nR - 1)]
+            if len(set(fr)) == len(fr):
+                fr[-1] = fr[0]                                   # (one repeated radius)
+            R = R0 * np.array(fr); gamma = float(r.uniform(0.1, 0.6)); sfk = str(r.choice(['needle', 'plate']))
+            perm = np.roll(np.arange(nR), int(r.integers(1, nR)))
+            for which in (('GR', 'search') if k % 16 == 0 or ctx.thorough else ('search',)):      # (a golden-section search costs ~25 energies per radius)
+                cfg2 = dict(cfg, arRes=[float(r.choice([0.1, 0.2, 0.25])), float(r.choice([1, 2]))])
+                se2 = rows_object(EF, cfg2)
+                ff = eqar_failures(EF, se2, which, R, gamma, sfk, perm)
+                res.evaluations += 1
+                if ff is None:
+                    res.near_tie_skipped += 1; res.count('rows-eqAR-table-still-growing'); continue
+                res.count('rows-eqAR_by' + ('Search' if which == 'search' else 'GR'))
+                for f in ff:
+                    res.violate(f['key'], f['what'], dict(object=case['object'], calls=case['calls'], quadrature=case['quadrature'], Rsph=R.tolist(), gamma=gamma, shape_factor=sfk,
+                                                          eqar_replay=dict(cfg=rows_cfg_json(cfg2), which=which, R=R.tolist(), gamma=gamma, sf=sfk, perm=[int(x) for x in perm])),
+                                f['observed'], f['required'])
+        # ---- the same settings and rows through the model
+        if k < ncorr and E.shape == (nrow,):
+            nodes = [(np.zeros(0), np.zeros(0), np.zeros(0), 0.0)]
+            toks = ['S ' + enc_op(op) for op in ops]
+            if dreal == 3:
+                nd = quad_nodes(EF, quad)
+                cost = len(nd[0]) * nrow
+                if cost > budget[0]:
+                    res.count('rows-model-skipped-for-cost'); return
+                budget[0] -= cost
+                if quad is not None:
+                    nodes.append(nd); toks.append('Q 1')
+                else:
+                    nodes[0] = nd
+            idx = [int(x) for x in perms[0]]
+            tol = 1e-7 if dreal == 3 else 1e-9
+            Ep = EP[0] if EP else None
+
+            def chk(t, E=E, Ep=Ep, idx=idx, tol=tol, dreal=dreal, case={kk: case[kk] for kk in ('object', 'calls', 'quadrature', 'rows')}):
+                md = t.nat()
+                g1 = t.flts(); g2 = t.flts(); g3 = t.flts(); g4 = t.flts()
+                if md != dreal:
+                    res.disagree('array call: description', case, SHAPES[dreal], md); return
+                if len(g1) != len(E):
+                    res.disagree('array call: number of results', case, len(E), len(g1)); return
+                for i in range(len(E)):
+                    if math.isfinite(E[i]) and not close(g1[i], E[i], tol):
+                        reuse = all(close(a, b, tol) for a, b in zip(g2, E))
+                        res.disagree('array call: row %d of compute vs the model computeRows (= the single-row energy of every row)%s'
+                                     % (i, ' — the implementation equals the reuse-previous-row variant computeRowsReuse' if reuse else ''), dict(case, row=i), float(E[i]), g1[i]); return
+                if Ep is not None and len(g3) == len(Ep):
+                    for i in range(len(Ep)):
+                        if math.isfinite(Ep[i]) and not close(g3[i], Ep[i], tol):
+                            res.disagree('array call on permuted rows: position %d vs the model computeRows (takeRows rows idx)' % i, dict(case, perm=idx), float(Ep[i]), g3[i]); return
+                if any(not (a == b or (a != a and b != b)) for a, b in zip(g3, g4)):
+                    res.disagree('model: computeRows (takeRows rows idx) != takeRows (computeRows rows) idx', dict(case, perm=idx), g4, g3)
+            shape_code = H_SHAPE_CODE[name.upper()]
+            lines.append('el.rows %d %d %s %d %s %d %s %d %s' % (shape_code, len(nodes), ' '.join('%s %s %s %s' % (enc_list(nd[0]), enc_list(nd[1]), enc_list(nd[2]), f2b(nd[3])) for nd in nodes),
+                                                                len(toks), ' '.join(toks), nrow, ' '.join(enc_list(x) for x in rows), len(idx), ' '.join(str(i) for i in idx)))
+            checks.append(('array-call', case, chk))
+            res.count('rows-model-lines')
+    for k in range(n or ctx.n(96, 1200)):
+        attempt(res, 'array-call', k, _case_rows)
+    return lines, checks
+
+
 # ------------------------------------------------------------------ entry points
 def corr(ctx, oracle_only=False, scale=1):
     res = Result()
@@ -2247,7 +2575,7 @@ def corr(ctx, oracle_only=False, scale=1):
                 'eigenstrain kind (dilatation, diagonal, full symmetric) x shape (sphere, prolate, oblate, triaxial) x quadrature order x rotation; setter sequences: random ops '
                 '(18 kinds) on all four initial shapes; order pairs: the same items supplied in two random orders; histories of one object: 3..22 (thorough 60) calls, 40 % observations '
                 '(compute on a pool of 3-4 aspect ratios x 2 sizes + random sizes, several radii at once, five energy variants, eqAR searches, a quarter of the histories repeat the same search), 60 % setters '
-                '(the 18 kinds, property assignment, setShape by name/instance, quadrature, inverse routine, aspect-ratio table settings); input forms: 6-10 forms per tensor x side x tensor kind (cubic, isotropic, rotated cubic); orientation: matrix kind (isotropic, cubic, misaligned cubic) x shape (tri-axial with a random longest axis and axis ratios 1.25-1.8 between neighbours, spheroid about x / y / z with aspect ratio 1.5-4 either way) x eigenstrain (diagonal with three different entries, full symmetric) x six quadrature schemes x relabellings. non-trivial = non-degenerate input (sequence of >= 3 ops); distinct = (kind tuple, index)')
+                '(the 18 kinds, property assignment, setShape by name/instance, quadrature, inverse routine, aspect-ratio table settings); input forms: 6-10 forms per tensor x side x tensor kind (cubic, isotropic, rotated cubic); orientation: matrix kind (isotropic, cubic, misaligned cubic) x shape (tri-axial with a random longest axis and axis ratios 1.25-1.8 between neighbours, spheroid about x / y / z with aspect ratio 1.5-4 either way) x eigenstrain (diagonal with three different entries, full symmetric) x six quadrature schemes x relabellings; array calls: description (8 names cycling) x tensor rank x row layout (run / interleaved / repeated / mixed) x n = 2..8 x two permutations. non-trivial = non-degenerate input (sequence of >= 3 ops); distinct = (kind tuple, index)')
     res.monitored = list(MONITORED)
     EF, LN = load()
     fast_points(EF, LN)
@@ -2264,6 +2592,8 @@ def corr(ctx, oracle_only=False, scale=1):
     l, c = part_history(ctx, res, EF, r)
     lines += l; checks += c
     l, c = part_orientation(ctx, res, EF, r, lebedev_bad)        # (last: the random stream of the parts above is unchanged)
+    lines += l; checks += c
+    l, c = part_rows(ctx, res, EF, r)                            # (after it, for the same reason)
     lines += l; checks += c
     if ctx.driver_ok and not oracle_only:
         out = vlib.run_driver(PROP, lines)
@@ -2298,6 +2628,7 @@ def search(ctx, broken):
     part_sequences(big, res, EF, r)
     part_objects(big, res, EF, r)
     part_orientation(big, res, EF, r, bad)
+    part_rows(big, res, EF, r)
     return res
 
 
@@ -2311,6 +2642,20 @@ def replay(ctx, entry):
         fast_points(EF, LN)
         hops = [hop_from_json(x) for x in case['replay_ops']]
         fails, _ = run_history(EF, int(case['replay_shape']), hops)
+        hits = [f for f in fails if f['key'] == key]
+        for f in hits[:3]:
+            print('  ', f['key'], f['what'], f['observed'], f['required'])
+        return not hits
+    if isinstance(case, dict) and ('rows_replay' in case or 'eqar_replay' in case):
+        # an array call: the recorded object (constructor, setters, quadrature) and the recorded rows / radii again
+        EF, LN = load()
+        fast_points(EF, LN)
+        if 'rows_replay' in case:
+            j = case['rows_replay']
+            fails, _, _ = rows_failures(EF, rows_object(EF, rows_cfg_from_json(j['cfg'])), np.array(j['rows'], dtype=float), j['ids'], j['fs'], [np.array(p, dtype=int) for p in j['perms']])
+        else:
+            j = case['eqar_replay']
+            fails = eqar_failures(EF, rows_object(EF, rows_cfg_from_json(j['cfg'])), j['which'], np.array(j['R'], dtype=float), j['gamma'], j['sf'], np.array(j['perm'], dtype=int)) or []
         hits = [f for f in fails if f['key'] == key]
         for f in hits[:3]:
             print('  ', f['key'], f['what'], f['observed'], f['required'])
